@@ -266,26 +266,28 @@ CHECKS = {
         technique="behaviour: translation validation with the kernel-checked equivalence checker (check_sound) — real compiler output of generated programs with macros "
                   "(single file and multi-file layouts in temporary directories) vs the Lean source semantics of the program containing all macros (Stmt.macroCall = body inlined), "
                   "and vs the real compiler's output for the textually inlined macro-free program; ordering and import resolution: Lean 4 theorems about hand-written models of "
-                  "MacroResolutionOrderVisitor (igraph vertex/edge order, bfsiter, merge, _check_cycles), MacroVisitor's sort and _resolve_imported_file + exact "
+                  "MacroResolutionOrderVisitor (igraph vertex order = order of first mention, in_edges, _check_cycles, the ordering loop of repair 0989cb8 statement by statement), MacroVisitor's sort and _resolve_imported_file + exact "
                   "model-vs-implementation comparison (resolution order of every compiled file, resolved paths on the real temporary tree) + property oracles on the real outputs",
         text="ONE category is claimed for the whole property: translation validation, because its first sentence (compiled routines behave like the program with every macro call "
              "replaced by the body, parameters substituted, return leaving only the macro, labels private per expansion) is decided per generated program by a proven checker, not by a "
              "forall-programs theorem about macro expansion (ExplorerScriptMacro.build is not modelled). Each program is validated twice: against the Lean semantics in which a macro call "
              "IS the inlined body, and against the real compiler's output for the textually inlined program; all definition orders of a macro set must compile and be pairwise equivalent. "
-             "The other two sentences are backed by kernel-checked theorems for ALL inputs about faithful models: the cycle check rejects exactly the cyclic call relations "
-             "(cycle_detected_iff); for acyclic inputs the resolution order lists every mentioned macro exactly once (order_total); the claim 'every callee precedes its callers' "
-             "(hence 'every acyclic set compiles') is FALSE for the pinned code — counterexample theorem on macro top(){~mid();~leaf();} macro mid(){~leaf();} macro leaf(){..} "
-             "(order [leaf, top, mid], 'Macro mid not found'), reproduced on the real compiler on every run and recorded as known finding — and is proved under the decidable guard "
-             "'all call chains from a macro down to a given leaf macro have equal length' (order_topological_partial, all_macros_compile_partial); a verified stable Kahn order "
-             "(topoOrder_topological, topoOrder_complete) backs the proposed repair. Import resolution: relative imports resolve against the importing file's directory, absolute "
+             "The other two sentences are backed by kernel-checked theorems for ALL inputs about faithful models, and since /repo commit 0989cb8 (the repair this check proposed, "
+             "now the code) the ordering statements hold IN FULL, without guard: the cycle check rejects exactly the cyclic call relations (cycle_detected_iff); the ordering loop never fails "
+             "to find a next macro, so exactly the acyclic inputs get a resolution order (visit_never_stops, visitStart_ok_iff); that order lists every mentioned macro exactly once "
+             "(order_total) and every callee before its callers (order_topological); hence every acyclic, closed set of macro definitions compiles in every definition order "
+             "(all_acyclic_compile, via compiles_of_topological). The ordering of the pinned tree (one BFS per root + remove-then-append merge) is kept as ...Pinned definitions only: "
+             "order_topological_counterexample / witness_does_not_compile state that it ordered macro top(){~mid();~leaf();} macro mid(){~leaf();} macro leaf(){..} as [leaf, top, mid] and "
+             "rejected it with 'Macro mid not found', and that the repaired code gives [leaf, mid, top] and compiles it; the same witness runs on the real compiler on every run. "
+             "Import resolution: relative imports resolve against the importing file's directory, absolute "
              "imports to themselves, other imports to the candidate of the first lookup path in list order whose candidate exists, none -> not found, '.'/'..' components rejected "
              "(resolve_relative, resolve_absolute, resolve_lookup_first_match, resolve_lookup_none, resolve_rejects_dot_components). Models are compared with the real code on every run.",
         note=TV_NOTE + "Additionally trusted for the ordering/import theorems: the hand-written models (tied by exact comparison on every run: macro_resolution_order of the main file and of "
-             "every imported file, the paths _resolve_imported_file returns on the real temporary tree, error classes), igraph's behaviour as modelled (bfsiter visits out-neighbours in "
-             "vertex-id order; get_all_simple_paths non-empty iff reachable), os.path.realpath modelled as lexical normalisation (the trees contain no symbolic links), the harness reading "
-             "of the import rules of docs/language_spec.rst. Known finding on the current tree (check exits 0 with a KNOWN-FINDING line): macro_order_not_topological; three more defects this check found "
-             "(compile never returning for position marks in nested macros of one file, imported files with routines accepted, a directory taken for an import candidate) were "
-             "repaired in /repo meanwhile (1dfd06a, 71619a5, 804e3de) and are recorded as fixed. "
+             "every imported file, the paths _resolve_imported_file returns on the real temporary tree, error classes), igraph's behaviour as modelled (vertex ids in order of first mention, in_edges, "
+             "get_all_simple_paths non-empty iff reachable), os.path.realpath modelled as lexical normalisation (the trees contain no symbolic links), the harness reading "
+             "of the import rules of docs/language_spec.rst. No known finding is open: the four defects this check found (acyclic macro sets rejected because the resolution order was not topological, compile never returning for "
+             "position marks in nested macros of one file, imported files with routines accepted, a directory taken for an import candidate) were repaired in /repo "
+             "(0989cb8, 1dfd06a, 71619a5, 804e3de) and are recorded as fixed. "
              "Parameters receiving $PERFORMANCE_PROGRESS_LIST, non-integer arguments in integer-like positions and imports starting with '.' but not './' are outside the generated set."),
 }
 
